@@ -1,12 +1,12 @@
-\* schedules for replay: every complete behaviour of the unsynchronised design (the most permissive one)
+\* schedules with edits in the main directory and in an imported package's directory
 SPECIFICATION Spec
 CONSTANTS
   MaxEdits = 2
   MaxRegens = 3
   Invalid = {}
   Mode = "concurrent"
-  Dirs = {"main"}
+  Dirs = {"main", "imp"}
   WatchDirs = "rearm"
-  Kinds = {"write", "remove", "rename"}
+  Kinds = {"write"}
 INVARIANTS ExportSchedules
 CHECK_DEADLOCK FALSE
